@@ -43,6 +43,7 @@ type Scenario struct {
 	Publishes int    `json:"publishes"`
 	Cancels   bool   `json:"cancels"` // some Direct / Next calls run under a context that is cancelled at a random point
 	Seed      int64  `json:"seed"`
+	Patience  int    `json:"patience,omitempty"` // watchdog multiplier (confirmation run of a hang)
 }
 
 func mkCid(name string) cid.Cid {
@@ -75,6 +76,9 @@ type call struct {
 func Execute(sc Scenario) (log []gate.Event, key, detail string) {
 	s := gate.New(sc.Seed)
 	s.Watchdog = 4 * time.Second
+	if sc.Patience > 1 {
+		s.Watchdog *= time.Duration(sc.Patience)
+	}
 	var mu sync.Mutex
 	callOf := map[int64]int{}
 	passthrough := false
@@ -242,7 +246,11 @@ func Execute(sc Scenario) (log []gate.Event, key, detail string) {
 				break
 			}
 			// something may still be on its way (a pubsub message being delivered, a goroutine being woken)
-			deadline := time.Now().Add(400 * time.Millisecond)
+			grace := 400 * time.Millisecond
+			if sc.Patience > 1 {
+				grace *= time.Duration(sc.Patience)
+			}
+			deadline := time.Now().Add(grace)
 			for len(s.ParkedIDs()) == 0 && len(pending()) > 0 && time.Now().Before(deadline) {
 				time.Sleep(200 * time.Microsecond)
 				s.Settle()
@@ -379,6 +387,14 @@ func Run(args []string) *rep.Report {
 	for i := si; i < *count; i += sn {
 		sc := Scenario{Config: *config, Seed: *seed*100019 + int64(i), Calls: 3 + i%6, Publishes: i % 4, Cancels: i%3 == 2}
 		log, key, detail := Execute(sc)
+		if key == "hang" || key == "watcher-leak" {
+			// confirm before alarm: a real deadlock shows again, with four times the patience
+			sc2 := sc
+			sc2.Patience = 4
+			if _, key2, _ := Execute(sc2); key2 != key {
+				key, detail = "infra", "a "+key+" did not reproduce with a longer watchdog (busy machine)"
+			}
+		}
 		r.Eval(true)
 		if i%29 == 0 {
 			r.Sample(map[string]interface{}{"scenario": sc, "first_events": log[:min(len(log), 40)]})
